@@ -30,10 +30,26 @@ fn run_script(out: &mut Out, kind: &str, ops: &[String]) {
                         V::P(p) => p.add(PasswordAlgorithm::new(Algorithm::from(AlgorithmId::from(nums[1] as u16)))),
                         V::U(u) => u.add(nums[1] as u16) }; "-".to_string() }
             "d" => { env.remove(&nums[0]); "-".to_string() }
-            _ => { let l: Vec<String> = match env.get(&nums[0]).unwrap() {
-                        V::P(p) => p.iter().map(|a| u16::from(a.algorithm()).to_string()).collect(),
-                        V::U(u) => u.iter().map(|a| a.to_string()).collect() };
-                   if l.is_empty() { "e".to_string() } else { l.join(".") } }
+            _ => {
+                // every way of reading the value must show the same contents: the borrowing iterator, the slice accessor and
+                // a consuming iterator over a clone (taken while the value itself is still alive)
+                let (l, consistent): (Vec<String>, bool) = match env.get(&nums[0]).unwrap() {
+                    V::P(p) => {
+                        let a: Vec<String> = p.iter().map(|a| u16::from(a.algorithm()).to_string()).collect();
+                        let b: Vec<String> = p.password_algorithms().iter().map(|a| u16::from(a.algorithm()).to_string()).collect();
+                        let c: Vec<String> = p.clone().into_iter().map(|a| u16::from(a.algorithm()).to_string()).collect();
+                        let ok = a == b && a == c;
+                        (a, ok)
+                    }
+                    V::U(u) => {
+                        let a: Vec<String> = u.iter().map(|a| a.to_string()).collect();
+                        let b: Vec<String> = u.attributes().iter().map(|a| a.to_string()).collect();
+                        let ok = a == b;
+                        (a, ok)
+                    }
+                };
+                if !consistent { "X".to_string() } else if l.is_empty() { "e".to_string() } else { l.join(".") }
+            }
         });
         match r { Ok(s) => res.push(s), Err(()) => { res.push("P".into()); dead = true } }
     }
